@@ -321,6 +321,10 @@ def check_c15(pid, tier, t0, replay_key):
     findings += f
     obl += o
     st.update(s2)
+    f, o, s2 = e4.rule_x12(P)
+    findings += f
+    obl += o
+    st.update(s2)
     import e7
     f, o, s2 = e4.rule_x10(P, reach, tables, e7.g1_covers(P, tables))
     findings += f
